@@ -44,8 +44,17 @@ type c16Src struct {
 	CloseErr bool    `json:"close_err,omitempty"` // its Close returns an error
 }
 
+// c16Op: one call on a MultiReaderCloser (kind "multiuse"): Read with a buffer of *Read bytes
+// (0 allowed), or WriteTo to a destination that accepts *Budget more Write calls (nil = all).
+type c16Op struct {
+	Read    *int   `json:"read,omitempty"`
+	WriteTo bool   `json:"writeto,omitempty"`
+	Budget  *int64 `json:"budget,omitempty"`
+}
+
 type c16Input struct {
-	Kind      string      `json:"kind"` // limit | multi | tee | iface
+	Kind      string      `json:"kind"`          // limit | multi | tee | iface | multiuse
+	Ops       []c16Op     `json:"ops,omitempty"` // multiuse: the calls, in order
 	N         int64       `json:"n,omitempty"`
 	Script    xScript     `json:"script,omitempty"`
 	SrcWT     bool        `json:"src_wt,omitempty"`      // limit/tee: the source is also an io.WriterTo
@@ -556,6 +565,103 @@ func c16Run(ctx *core.Ctx, in c16Input) {
 		ctx.Sink.Count(fmt.Sprintf("multi/sources=%d", len(in.Srcs)))
 		ctx.Sink.Count(fmt.Sprintf("multi/closes=%d", ncl))
 		ctx.Sink.Count("err=" + ec)
+	case "multiuse":
+		// any sequence of Read / WriteTo calls on the wrapper, whatever they return, then Close
+		var readers []io.Reader
+		var srcs []*xReader
+		coqSrcs := make([]string, len(in.Srcs))
+		shape := ""
+		totalLen := 0
+		for i, s := range in.Srcs {
+			rd, r := c16Source(s.Script, s.Closable, false, s.CloseErr) // plain sources: WriteTo copies them with its own 32 KiB buffer
+			srcs = append(srcs, r)
+			readers = append(readers, rd)
+			coqSrcs[i] = fmt.Sprintf("(%s, %s)", s.Script.Coq(), hx.CoqBool(s.Closable))
+			shape += s.Script.Shape() + fmt.Sprintf("%v|", s.Closable)
+			d, _ := s.Script.Data()
+			totalLen += len(d)
+		}
+		mr := streams.NewMultiReaderCloser(readers...)
+		coqOps := make([]string, len(in.Ops))
+		coqObs := make([]string, len(in.Ops))
+		opsig := ""
+		known := true
+		for i, op := range in.Ops {
+			var out []byte
+			var err error
+			func() {
+				defer func() {
+					if p := recover(); p != nil {
+						err = errPanicked
+					}
+				}()
+				if op.Read != nil {
+					buf := make([]byte, *op.Read)
+					var n int
+					n, err = mr.Read(buf)
+					out = buf[:n]
+					return
+				}
+				var budget *int64
+				if op.Budget != nil {
+					b := *op.Budget
+					budget = &b
+				}
+				dst := &budgetWriter{budget: budget}
+				if wt, ok := any(mr).(io.WriterTo); ok {
+					_, err = wt.WriteTo(dst)
+				} else {
+					_, err = io.Copy(dst, mr)
+				}
+				err = eofIfNil(err)
+				out = dst.buf
+			}()
+			ec, ok := c16Err(err)
+			known = known && ok
+			if op.Read != nil {
+				coqOps[i] = "ZRead " + hx.CoqZ(int64(*op.Read))
+				opsig += fmt.Sprintf("r%d", *op.Read)
+				ctx.Sink.Count("multiuse/op=Read")
+				if *op.Read == 0 {
+					ctx.Sink.Count("multiuse/op=Read with an empty buffer")
+				}
+			} else {
+				coqOps[i] = fmt.Sprintf("ZWriteTo [] %s %s", hx.CoqZ(copyBuf), hx.CoqOptZ(op.Budget))
+				opsig += "w"
+				ctx.Sink.Count("multiuse/op=WriteTo")
+				if op.Budget != nil {
+					opsig += fmt.Sprintf("b%d", *op.Budget)
+					ctx.Sink.Count("multiuse/op=WriteTo to a destination that fails")
+				}
+			}
+			if i > 0 && ec != "ENil" {
+				ctx.Sink.Count("multiuse/call after a call that reported " + ec)
+			}
+			coqObs[i] = fmt.Sprintf("(%s, %s)", hx.CoqBytes(out), ec)
+		}
+		counts := func() []int {
+			cs := make([]int, len(srcs))
+			for i, s := range srcs {
+				cs[i] = s.Closes
+			}
+			return cs
+		}
+		cb := counts()
+		for i := 0; i < ncl; i++ {
+			safeClose(mr)
+		}
+		ca := counts()
+		c.Class = fmt.Sprintf("multiuse/%s/%s", shape, opsig)
+		c.Trivial = totalLen == 0 || len(in.Ops) == 0
+		c.Observed = map[string]any{"results": coqObs, "closes_before": cb, "closes_after": ca}
+		c.Coq = fmt.Sprintf("CMultiUse %s %s %s %s %s %s", hx.CoqList(coqSrcs), hx.CoqList(coqOps),
+			hx.CoqZ(int64(ncl)), hx.CoqList(coqObs), hx.CoqInts(cb), hx.CoqInts(ca))
+		if !known {
+			c.Direct, c.Note = 1, "unclassified error"
+		}
+		ctx.Sink.Count("kind=multiuse")
+		ctx.Sink.Count(fmt.Sprintf("multiuse/ops=%d", len(in.Ops)))
+		ctx.Sink.Count(fmt.Sprintf("multiuse/closes=%d", ncl))
 	case "tee":
 		rd, src := c16Source(in.Script, true, in.SrcWT, in.CloseErr)
 		var budget *int64
@@ -1028,6 +1134,56 @@ func c16Gen(ctx *core.Ctx) {
 				c16Run(ctx, c16Input{Kind: "multi", Srcs: srcs, Consumer: c, Closes: 1 + r.Intn(3)})
 			}
 		}
+	}
+	// --- multi under ANY use: 1..4 sources of every style (failing and recovering ones too), any
+	// sequence of 0..6 calls - Read with buffers of 0..8 bytes, WriteTo to destinations that fail
+	// after 0..3 writes or never - whatever each call returns, then Close 1..3 times
+	use := 700
+	if ctx.Thorough {
+		use = 40000
+	}
+	for k := 0; k < use; k++ {
+		ns := 1 + r.Intn(4)
+		var srcs []c16Src
+		off := 0
+		for i := 0; i < ns; i++ {
+			ln := r.Intn(6)
+			style := r.Intn(nXStyles)
+			if (style == 3 || style >= 5) && !r.Chance(1, 2) {
+				style = r.Intn(3)
+			}
+			srcs = append(srcs, c16Src{Script: xGen(r, seqBytes(off, ln), xStyleOf(r, style), 1+r.Intn(ln+1)),
+				Closable: !r.Chance(1, 4), CloseErr: r.Chance(1, 4)})
+			off += ln
+		}
+		var ops []c16Op
+		if k%5 == 4 {
+			// a header through Read, the rest through WriteTo (io.Copy after a few Reads)
+			for i, n := 0, r.Intn(4); i < n; i++ {
+				sz := 1 + r.Intn(4)
+				ops = append(ops, c16Op{Read: &sz})
+			}
+			ops = append(ops, c16Op{WriteTo: true})
+			if r.Chance(1, 3) {
+				sz := 1 + r.Intn(3)
+				ops = append(ops, c16Op{Read: &sz}) // and a Read after the end
+			}
+		} else {
+			for i, n := 0, r.Intn(7); i < n; i++ {
+				if r.Chance(3, 5) {
+					sz := []int{0, 1, 1, 2, 3, 8}[r.Intn(6)]
+					ops = append(ops, c16Op{Read: &sz})
+				} else {
+					op := c16Op{WriteTo: true}
+					if r.Chance(2, 5) {
+						b := int64(r.Intn(4))
+						op.Budget = &b
+					}
+					ops = append(ops, op)
+				}
+			}
+		}
+		c16Run(ctx, c16Input{Kind: "multiuse", Srcs: srcs, Ops: ops, Closes: 1 + r.Intn(3)})
 	}
 	// --- tee
 	tee := 480
